@@ -3,10 +3,10 @@ import QModel.Core
 # C15 — Monte-Carlo simulations: seed plumbing, task scheduling, depolarising noise, physicality check
 
 Model of
-* `generate_empi_dists_and_calc_estimate` (standard_qtomography_simulation.py:809-866): the repetition loop hands the
-  *same* `seed_or_generator` object to every repetition; `to_stream` (utils/number_util.py:53-77) turns an `int` into
-  a **new** `Generator(MT19937(seed))` each time, returns a `Generator` object as it is, and `None` as the global
-  `np.random`;
+* `generate_empi_dists_and_calc_estimate` (standard_qtomography_simulation.py:809-869): the seed argument is converted
+  **once**, before the repetition loop, by `to_stream` (utils/number_util.py:53-77: an `int` becomes a new
+  `Generator(MT19937(seed))`, a `Generator` object is returned as it is, `None` is the global `np.random`), and that one
+  stream is handed to every repetition;
 * the flow (standard_qtomography_simulation_flow.py:116-316): `SeedSequence(seed).spawn(n)` children, one generator per
   repetition / per sample, `joblib.Parallel` at four levels — tasks executed in any order, grouped into batches that
   share the (mutable) loss / algorithm objects they were handed;
@@ -42,13 +42,24 @@ def rep {S G D : Type} (P : Prng S G D) (a : SeedArg S G) (glob : G) : D × Seed
   | .gen g => ((P.draw g).1, .gen (P.draw g).2, glob)
   | .none => ((P.draw glob).1, .none, (P.draw glob).2)
 
-/-- `for _ in range(iteration)`: every repetition receives the same argument object -/
-def loop {S G D : Type} (P : Prng S G D) : Nat → SeedArg S G → G → List D × SeedArg S G × G
+/-- `to_stream(seed_or_generator)` -/
+def toStream {S G D : Type} (P : Prng S G D) : SeedArg S G → SeedArg S G
+  | .int s => .gen (P.ofSeed s)
+  | a => a
+
+/-- `for _ in range(iteration)`: every repetition receives the same stream object -/
+def loopS {S G D : Type} (P : Prng S G D) : Nat → SeedArg S G → G → List D × SeedArg S G × G
   | 0, a, glob => ([], a, glob)
   | n + 1, a, glob =>
       let r := rep P a glob
-      let rest := loop P n r.2.1 r.2.2
+      let rest := loopS P n r.2.1 r.2.2
       (r.1 :: rest.1, rest.2.1, rest.2.2)
+
+/-- `generate_empi_dists_and_calc_estimate(…, iteration=n, seed_or_generator=a)`: the data of the repetitions, the
+caller's argument object afterwards (an integer is untouched: the stream made from it is local), the global state -/
+def loop {S G D : Type} (P : Prng S G D) (n : Nat) (a : SeedArg S G) (glob : G) : List D × SeedArg S G × G :=
+  let r := loopS P n (toStream P a) glob
+  (r.1, (match a with | .int s => .int s | _ => r.2.1), r.2.2)
 
 /-- state of a generator after `k` repetitions drew from it -/
 def advance {S G D : Type} (P : Prng S G D) : Nat → G → G
